@@ -113,6 +113,20 @@ MUTANTS = [
  M("c18-even-off-by-one", "C18", "C18.rank", (MEDF, "\t\tmid := l/2 - 1\n", "\t\tmid := (l+1)/2 - 1\n"), (MEDF, "\t\tmedian = s[l/2]\n", "\t\tmedian = s[(l+1)/2]\n")),
  M("c18-sorts-input", "C18", "C18.rank", (MEDF, "\tsort.Slice(s, func(i, j int) bool { return s[i] < s[j] })\n", "\tsort.Slice(input, func(i, j int) bool { return input[i] < input[j] })\n\tcopy(s, input)\n")),
  M("c18-block-ts-now", "C18", "C18.prov", ("src/hashgraph/block.go", "\t\tframe.Timestamp)\n", "\t\tframe.Timestamp+int64(len(frame.Events)))\n")),
+ # ---- C17
+ M("c17-eager-when-suspended", "C17", "C17.gate", (RPC, "\t_, isSyncRequest := rpc.Command.(*net.SyncRequest)\n", "\t_, isSyncRequest := rpc.Command.(*net.SyncRequest)\n\tif _, isEager := rpc.Command.(*net.EagerSyncRequest); isEager {\n\t\tisSyncRequest = true\n\t}\n")),
+ M("c17-gate-joining-admitted", "C17", "C17.gate", (RPC, "if state := n.GetState(); !(state == _state.Babbling ||", "if state := n.GetState(); !(state == _state.Babbling || state == _state.Joining ||")),
+ M("c17-refuse-without-return", "C17", "C17.gate", (RPC, "\t\trpc.Respond(nil, fmt.Errorf(\"Not in Babbling state\"))\n\t\treturn\n", "\t\trpc.Respond(nil, fmt.Errorf(\"Not in Babbling state\"))\n")),
+ M("c17-refuse-with-nil-error", "C17", "C17.gate", (RPC, "\t\trpc.Respond(nil, fmt.Errorf(\"Not in Babbling state\"))\n", "\t\tvar gateErr error\n\t\tif state != _state.Suspended {\n\t\t\tgateErr = fmt.Errorf(\"Not in Babbling state\")\n\t\t}\n\t\trpc.Respond(nil, gateErr)\n")),
+ M("c17-sync-handler-processes-sigpool", "C17", "C17.readonly", (RPC, "\t//Get Self Known\n\tn.coreLock.Lock()\n\tknownEvents := n.core.knownEvents()\n", "\t//Get Self Known\n\tn.coreLock.Lock()\n\tn.core.processSigPool()\n\tknownEvents := n.core.knownEvents()\n")),
+ M("c17-sync-handler-writes-heads", "C17", "C17.readonly", (RPC, "\t//Get Self Known\n\tn.coreLock.Lock()\n\tknownEvents := n.core.knownEvents()\n", "\t//Get Self Known\n\tn.coreLock.Lock()\n\tdelete(n.core.heads, cmd.FromID)\n\tknownEvents := n.core.knownEvents()\n")),
+ M("c17-diff-unsorted", "C17", "C17.diff", (CORE, "\tsort.Sort(hg.ByTopologicalOrder(unknown))\n\n\treturn unknown, nil", "\tif len(unknown) > 1000 {\n\t\tsort.Sort(hg.ByTopologicalOrder(unknown))\n\t}\n\n\treturn unknown, nil")),
+ M("c17-diff-suffix", "C17", "C17.diff", (RPC, "\t\t\teventDiff = eventDiff[:limit]\n", "\t\t\teventDiff = eventDiff[len(eventDiff)-limit:]\n")),
+ M("c17-diff-skip-zero", "C17", "C17.diff", (CORE, "\t\tif !ok {\n\t\t\tct = -1\n\t\t}", "\t\tif !ok {\n\t\t\tct = 0\n\t\t}")),
+ M("c17-submit-creates-event", "C17", "C17.submit", (NODEF, "\tn.core.addTransactions([][]byte{tx})\n}", "\tn.core.addTransactions([][]byte{tx})\n\tif len(n.core.transactionPool) > 100 {\n\t\tn.core.addSelfEvent(\"\")\n\t}\n}")),
+ M("c17-suspend-no-validator-factor", "C17", "C17.suspend", (NODEF, "tooManyUndeterminedEvents := newUndeterminedEvents > n.conf.SuspendLimit*n.core.validators.Len()", "tooManyUndeterminedEvents := newUndeterminedEvents > n.conf.SuspendLimit*10")),
+ M("c17-check-suspend-only-when-gossip", "C17", "C17.suspend", (NODEF, "\t\t\tn.resetTimer()\n\t\t\tn.checkSuspend()\n", "\t\t\tn.resetTimer()\n\t\t\tif gossip {\n\t\t\t\tn.checkSuspend()\n\t\t\t}\n")),
+ M("c17-suspend-wait-first", "C17", "C17.suspend", (NODEF, "\t\tn.transition(_state.Suspended)\n\n\t\t// Stop and wait for concurrent operations\n\t\tclose(n.suspendCh)\n\t\tn.WaitRoutines()\n", "\t\t// Stop and wait for concurrent operations\n\t\tclose(n.suspendCh)\n\t\tn.WaitRoutines()\n\n\t\tn.transition(_state.Suspended)\n")),
 ]
 
 BENIGN = [
@@ -142,4 +156,7 @@ BENIGN = [
 
  B("c18-benign-sort-ints", "C18", (MEDF, "\tsort.Slice(s, func(i, j int) bool { return s[i] < s[j] })\n", "\tsort.Slice(s, func(a, b int) bool { return s[b] > s[a] })\n")),
  B("c18-benign-half-var", "C18", (MEDF, "\t\tmedian = s[l/2]\n", "\t\th := (l - 1) / 2\n\t\tmedian = s[h]\n")),
+
+ B("c17-benign-switch-gate", "C17", (RPC, "\tif state := n.GetState(); !(state == _state.Babbling ||\n\t\t(state == _state.Suspended && isSyncRequest)) {\n", "\tstate := n.GetState()\n\tadmitted := false\n\tswitch {\n\tcase state == _state.Babbling:\n\t\tadmitted = true\n\tcase state == _state.Suspended && isSyncRequest:\n\t\tadmitted = true\n\t}\n\tif !admitted {\n")),
+ B("c17-benign-gt-swapped", "C17", (NODEF, "tooManyUndeterminedEvents := newUndeterminedEvents > n.conf.SuspendLimit*n.core.validators.Len()", "tooManyUndeterminedEvents := n.core.validators.Len()*n.conf.SuspendLimit < newUndeterminedEvents")),
 ]
